@@ -22,6 +22,54 @@ char *strerror(int e)
     return verif_strerror_buf;
 }
 
+/* qsort: insertion sort through the caller's comparator (elements <= 16 bytes) */
+void qsort(void *base, size_t nmemb, size_t size, int (*compar)(const void *, const void *))
+{
+    unsigned char *b = base;
+    unsigned char tmp[16];
+
+    __CPROVER_assert(size <= 16, "infra: qsort model handles elements up to 16 bytes");
+    for (size_t i = 1; i < nmemb; ++i) {
+	size_t j = i;
+
+	while (j > 0 && compar(b + (j - 1) * size, b + j * size) > 0) {
+	    for (size_t k = 0; k < size; ++k) {
+		tmp[k] = b[(j - 1) * size + k];
+		b[(j - 1) * size + k] = b[j * size + k];
+		b[j * size + k] = tmp[k];
+	    }
+	    --j;
+	}
+    }
+}
+
+/* POSIX insque/remque on the library's list_t (two leading pointers): exact model */
+struct verif_qelem { struct verif_qelem *q_forw, *q_back; };
+void insque(void *elem, void *prev)
+{
+    struct verif_qelem *e = elem, *p = prev;
+
+    if (p == NULL) {
+	e->q_forw = e->q_back = NULL;
+	return;
+    }
+    e->q_forw = p->q_forw;
+    e->q_back = p;
+    if (p->q_forw != NULL)
+	p->q_forw->q_back = e;
+    p->q_forw = e;
+}
+
+void remque(void *elem)
+{
+    struct verif_qelem *e = elem;
+
+    if (e->q_forw != NULL)
+	e->q_forw->q_back = e->q_back;
+    if (e->q_back != NULL)
+	e->q_back->q_forw = e->q_forw;
+}
+
 /* ASSUMED CONTRACT: snprintf writes a NUL-terminated string of at most size bytes */
 int snprintf(char *str, size_t size, const char *format, ...)
 {
